@@ -184,7 +184,7 @@ PROPS = {
   "level_text": "C08_vegas_partial (the stored estimate is monotone in the queue estimate across all updating branches: branch ladder + clamp + smoothing, binary64, any state in the C04 invariant), "
                 "C08_vegas_queue_mono (the queue estimate is monotone in the RTT through division, subtraction, product, ceil and truncation) and their composition C08_vegas_rtt_mono on the whole step are proved. "
                 "C08_gradient_partial: Gradient's gradient and candidate are antitone in the RTT, and so is the new estimate when both candidates fall on the same side of the current estimate. "
-                "The Vegas dead-band corner, Gradient's mixed-side case and Gradient2 are decided by bit-exact replay + the twin-run oracle.",
+                "C08_vegas_all_branches closes the dead-band corner for estimates in [7/4, max - 1]. Vegas above max - 1 (F18), Gradient's mixed-side case and Gradient2 are decided by bit-exact replay + the twin-run oracle.",
   "level_note": "Trusted as C04 plus: log10 oracle values satisfy log10(est) <= 6*int(log10(int est)) (checked by the harness on every supplied value). Known finding F18 replayed.",
   "technique": "Coq/Flocq monotonicity theorem + differential replay of twin runs",
  },
